@@ -109,6 +109,12 @@ def gen(rng):
         o["connection"] = rng.choice(("Connection: keep-alive, Upgrade", "Connection: Upgrade, keep-alive", "Upgrade", "keep-alive, Upgrade",
                                       "upgrade"))
     sc["opts"] = o
+    if sc["conns"] > 1 and rng.random() < 0.3:
+        # the server sets a cookie for this host on every connection (it comes back on the following ones): whatever the
+        # server puts into it, the next request must still be a valid request
+        dom = {"name": "srv.sim.test", "upper": "srv.sim.test", "ipv4": "10.3.0.2", "ipv6": "2001:db8::7"}.get(sc["host"], "srv.sim.test")
+        val = rng.choice(("abc", "abc", '"a b"', '"abc\rX-Injected: yes"', '"a\x00b"', '"a\x0bb"', "a\x7fb", '"tab\there"', "caf\xc3\xa9"))
+        sc["server_cookie"] = (f"sid={val}; Domain={dom}").encode("latin-1").hex()
     if sc["host"] != "redir" and rng.random() < 0.2:
         # the server redirects once, possibly to the other scheme: the second request must reflect the URL it is sent for
         sc["conns"] = 1
@@ -167,6 +173,8 @@ def run(sc, choices=None):
         cfg_ = {}
         if sc2 is not None:
             cfg_ = {"response": {"mode": "custom", "status": 302, "reason": "Found", "headers": [["Location", build_url(sc2)]], "then": "eof"}}
+        elif sc.get("server_cookie") is not None:
+            cfg_ = {"response": {"mode": "std", "extra": [["Set-Cookie", bytes.fromhex(sc["server_cookie"]).decode("latin-1")]]}}
         p = WSPeer(w, cfg_)
         peers.append(p)
         if tls:
@@ -216,7 +224,22 @@ def run(sc, choices=None):
     res.absorb(w, exclude_kinds=("send", "recv", "deliver") if any_tls else ())
     ctx = scheme
     optset = tuple(sorted(opts))
+    dirty = sc.get("server_cookie") is not None and any((c < 0x20 and c != 9) or c == 0x7F for c in bytes.fromhex(sc["server_cookie"]))
+    if dirty:
+        res.probes["server_cookie_with_control_character"] = 1
     for i, oc in enumerate(outcomes):
+        if dirty and oc.startswith("WebSocket"):
+            # a response carrying a control character in a header may be refused - what must not happen is that the
+            # character travels into a later request
+            peers_ok = [p for p in peers if p.bytes_before_reply is not None]
+            for j, p in enumerate(peers_ok):
+                why = _check_request(p, sc, url, eff_port, draws[j] if j < len(draws) else [], j)
+                if why:
+                    res.violate(why[0], ctx + "/dirty_server_cookie", f"connection #{j} {url} opts={optset}: {why[1]}")
+                    break
+            res.sig = repr(("dirty", scheme, optset, conns))
+            res.nontrivial = True
+            return res
         if oc != "ok":
             res.violate("connect_failed_against_correct_server", ctx, f"connection #{i} to {url} with {optset}: {oc}")
     if not res.violations:
@@ -324,7 +347,12 @@ def _check_request(p, sc, url, eff_port, draws, idx):
     elif sp:
         return ("subprotocols_not_reflected", f"unexpected Sec-WebSocket-Protocol {sp}")
     ck = one("Cookie")
-    if opts.get("cookie"):
+    if sc.get("server_cookie") is not None and idx > 0:
+        # what the server set on the earlier connections may be sent along (C20 says what exactly); the caller's own
+        # cookie must still be there, in one Cookie header
+        if len(ck) > 1 or (opts.get("cookie") and not (ck and opts["cookie"] in ck[0])):
+            return ("cookie_not_reflected", f"Cookie {ck}")
+    elif opts.get("cookie"):
         if ck != [opts["cookie"]]:
             return ("cookie_not_reflected", f"Cookie {ck}")
     elif ck:
